@@ -19,7 +19,8 @@ Dims == <<
   <<"/", "/a/b", "/a%2Fb", "/a%20b/", "//double", "/x/./y">>,                                   \* 2 path
   <<"", "a=1&b=2", "q=%20%26&x", "a=1&a=2;c=3">>,                                              \* 3 query
   <<"none", "multi", "emptyval", "cookies", "accept_enc", "custom_ae", "te_trailers", "xff", "expect_100">>, \* 4 request headers
-  <<"none", "cl_small", "cl_32k", "cl_big", "chunked_small", "chunked_big">>,                  \* 5 request body
+  <<"none", "cl_small", "cl_32k", "cl_big", "chunked_small", "chunked_big", "chunked_trailer">>, \* 5 request body (chunked_trailer: an announced trailer
+                                                                \* field follows the last chunk; the backend's view of it is recorded as a header "trailer:<name>")
   <<"200", "201", "204", "304", "301", "404", "500", "503", "103+404", "103+200", "403early">>,  \* 6 status (103+x: Early Hints first; 403early:
                                                                 \* 403, and a request that asks first (Expect: 100-continue) is refused unread)
   <<"plain", "setcookies", "unusual_ct", "pre_gzip", "no_ct", "own_ids">>,                               \* 7 response headers
